@@ -38,8 +38,8 @@ func init() {
 		[]string{"list and entry reader/writer tables agree and equal the EFI_SIGNATURE_LIST / EFI_SIGNATURE_DATA layouts", "entry data is SignatureSize-16 bytes", "nothing consumed is dropped", "SignatureHeader is empty for every accepted list", "every list and entry is written", "ListSize changes by ±Size with one entry, sizes stay uniform", "decoded data does not alias the input buffer"},
 		[]string{"byte-for-byte round trip for all streams", "numeric correctness of hand-built lists"})
 	Metas["C08"] = meta(lead+"Rules T (taint + affine guards), A-d (gates), G4 (clean end, EOF provenance), G10.",
-		[]string{"ListSize-28, Size-16 and the remaining-size decrement are guarded against wrap; allocations bounded", "handled-type gate, SHA-256 only with size 48", "database decoder succeeds only at a clean end", "EOF-transparent errors leave the list decoder only before anything was consumed", "full-read primitives"},
-		[]string{"that accepted streams are split exactly as a reference decoder would", "adequacy of a check's arithmetic beyond affine entailment (e.g. a vacuous divisibility test)"})
+		[]string{"ListSize-28, Size-16 and the remaining-size decrement are guarded against wrap; allocations bounded", "handled-type gate, SHA-256 only with size 48", "every accepted list has ListSize = 28 + n*SignatureSize (divisibility or exact-product equality on every accepting path)", "database decoder succeeds only at a clean end", "EOF-transparent errors leave the list decoder only before anything was consumed", "full-read primitives"},
+		[]string{"that accepted streams are split exactly as a reference decoder would", "adequacy of other checks' arithmetic beyond affine entailment"})
 	Metas["C09"] = meta(lead+"Rule family K over AppendBytes/RemoveBytes/Append/Remove.",
 		[]string{"guards dominate mutations (not-duplicate, found, known type, 32-byte hashes, uniform size)", "no failing return after a mutation", "checked value == stored value; list selected by stored length", "order-preserving removal, search continues after a miss, emptied list dropped", "ListSize ± Size pairing"},
 		[]string{"operation histories against an abstract model", "removal from the right list when two lists share type and size"})
